@@ -175,6 +175,8 @@ def wl_verify(ctx, config, scale=1.0):
             x = pools.field(rng)
             if lift_x(x): vcase(ctx, config, b32(x), msg, sig, "pool_key")
         elif kind == 10:
+            # sign-flipped s (a sign-blind final comparison) and neighbours
+            vcase(ctx, config, pk32, msg, sig[:32] + b32((n - I(sig[32:])) % n), "s_negated"); vcase(ctx, config, pk32, msg, sig[:32] + b32((I(sig[32:]) + 1) % n), "s_plus_1")
             # signature by the negated key verifies under the same x-only key (x-only semantics)
             sig2 = schnorr.sign(b32(n - d0), msg, bytes(32)); vcase(ctx, config, pk32, msg, sig2, "negated_secret_same_xonly")
 
